@@ -216,8 +216,18 @@ def law_dense(ch):
     mask = D.conserving_mask(symm, cms, duals, spec["charge"])
     want = np.where(mask, B, 0)
     mode = ch.choice(["ignore", "ignore", "warn", "raise"], "invalid_sectors")
-    mapform = ch.choice(["list", "dict"], "mapform")
-    maps_arg = [dict(enumerate(m)) for m in maps] if mapform == "dict" else maps
+    mapform = ch.choice(["list", "dict", "dict-shuffled"], "mapform")
+    if mapform == "dict":
+        maps_arg = [dict(enumerate(m)) for m in maps]
+    elif mapform == "dict-shuffled":
+        # a label dict need not have been filled in ascending key order
+        maps_arg = []
+        for k, m in enumerate(maps):
+            order = ch.perm(len(m), f"dict-order{k}") if len(m) <= 5 else \
+                list(range(len(m) - 1, -1, -1))
+            maps_arg.append({i: m[i] for i in order})
+    else:
+        maps_arg = maps
     with warnings.catch_warnings():
         warnings.simplefilter("ignore")
         if mode == "ignore":
@@ -276,7 +286,8 @@ def law_roundtrip(ch):
     """to_dense then from_dense with the sorted labels is the identity on a
     generated (sparse, possibly lazily signed) array; to_dense equals the
     harness' own densifier."""
-    spec = ch.draw(gen.array_specs(syms=ALLSYMS, allow_empty=False), "x")
+    spec = ch.draw(gen.array_specs(syms=ALLSYMS, allow_empty=False,
+                                   dtype="any"), "x")
     symm = spec["symm"]
     x = gen.build(spec)
     if not x.blocks:
@@ -284,6 +295,11 @@ def law_roundtrip(ch):
     cls = type(x)
     d = must(x.to_dense, what="to_dense")
     dense_equal(d, D.dense_of(x), "to_dense:vs-model", what="to_dense")
+    if spec["dtype"] == "mixed":
+        # blocks of differing dtype: only the dense value is judged
+        ch.label("mixed-dtype")
+        ch.mark_nontrivial(True)
+        return
     kw = {**sym_kwargs(spec, ch.boolean("explicit-symmetry")),
           **ferm_kwargs(spec)}
     cms = [dict(ix["cm"]) for ix in spec["idxs"]]
